@@ -126,8 +126,10 @@ func (c *Ctx) initFactEngine() {
 	valueByName = map[string]ssa.Value{}
 	fiByFn = map[*ssa.Function]*funcInfo{}
 	computeModSets(ssautil.AllFunctions(c.prog))
+	c.setupClassInvariants()
 	c.establishSlotInvariants(c.prop == "C01")
 	c.loadAssumptions()
+	c.classInvRules(c.prop == "C01")
 }
 
 func runC01(c *Ctx) {
